@@ -27,8 +27,6 @@ import types
 import uuid
 from concurrent.futures import ThreadPoolExecutor
 
-sys.setswitchinterval(0.0005)
-
 if __name__ != '__main__':
     import vf
 
@@ -47,6 +45,11 @@ class Hang(Exception):
     pass
 
 
+class SimClosed(BaseException):
+    """Raised inside the simulated nodes' threads when the Sim is torn down."""
+
+
+
 class WorkerKilled(BaseException):
     """Raised by the patched os.kill inside Worker.recv_incoming (stands for SIGKILL of self)."""
 
@@ -58,6 +61,7 @@ class Net:
         self.up = [[] for _ in range(n)]
         self.down = [[] for _ in range(n)]
         self.cv = threading.Condition()
+        self.closing = False
 
 
 class End:
@@ -125,10 +129,14 @@ class End:
                 self.net.cv.notify_all()
                 self.net.cv.wait(0.05)
                 self.waiting = False
+                if self.net.closing:
+                    raise SimClosed()
                 if self.read_after_eof:
                     self.waiting = True
-                    while True:        # a reader that ignores EOF: park it for ever (daemon thread)
-                        self.net.cv.wait(1.0)
+                    while True:        # a reader that ignores EOF: park it until the Sim is torn down
+                        self.net.cv.wait(0.2)
+                        if self.net.closing:
+                            raise SimClosed()
 
 
 class FakeKey:
@@ -146,6 +154,7 @@ class FakeSelector:
         self.waiting = False
         self.closed = False
         self.abandoned = False
+        self.stop = False
 
     def register(self, conn, events, data):
         self.reg[conn] = data
@@ -165,6 +174,8 @@ class FakeSelector:
                 self.waiting = True
                 self.cv.notify_all()
                 self.cv.wait(0.05)
+                if self.stop:
+                    raise SimClosed()
             self.waiting = False
             conn = self.feed
             self.feed = None
@@ -180,6 +191,7 @@ class FakeQueue:
         self.cv = threading.Condition()
         self.items: list = []
         self.idle = False
+        self.stop = False
 
     def put(self, x):
         with self.cv:
@@ -193,6 +205,8 @@ class FakeQueue:
                 self.idle = True
                 self.cv.notify_all()
                 self.cv.wait(0.05)
+                if self.stop:
+                    raise SimClosed()
             self.idle = False
             return self.items.pop(0)
 
@@ -370,6 +384,8 @@ class Sim:
         def run():
             try:
                 fn()
+            except SimClosed:
+                pass
             except BaseException as e:  # noqa
                 self.errors.append(f'node {i} thread {fn.__name__}: {type(e).__name__}: {e}')
             # NB: the sockets a boss process still holds when run() returns would be closed by the OS at process
@@ -392,10 +408,21 @@ class Sim:
                 self.worker_exit[i] = 'returned'
             except WorkerKilled:
                 self.worker_exit[i] = 'killed'
+            except SimClosed:
+                return
             except BaseException as e:  # noqa
                 self.worker_exit[i] = f'exc {type(e).__name__}'
             self._process_exit(i)
         return run
+
+    def close(self):
+        """Let every thread of this Sim end (they poll these flags)."""
+        self.net.closing = True
+        for i in range(self.n):
+            o = self.obj[i]
+            if self.kind[i] in 'SM':
+                o.sel.stop = True
+                o.outgoing.stop = True
 
     # -- settling --------------------------------------------------------------------------------
     def settle(self, i: int):
@@ -945,6 +972,7 @@ def outgoing_thread_oracle() -> dict | None:
     while srv.outgoing_thread.is_alive() and time.time() - t0 < 3:
         time.sleep(0.005)
     sim.pend[1].send = orig
+    sim.close()
     res = dict(thread_alive=srv.outgoing_thread.is_alive(), running=srv.running, errors=list(sim.errors),
                client_closed=sim.pend[3].closed, other_worker_got=[sim.tag(m) for m in sim.net.down[2]],
                selector_closed=srv.sel.closed)
@@ -1379,8 +1407,27 @@ def run_scenario(sc: dict) -> dict:
                 time.sleep(0.1)
             out['t_all_down'] = round(time.time() - t_kill, 2) if not left else None
             if left:
-                out['problems'].append(dict(symptom='runtime_survives', roles=sorted(x.rstrip('0123456789.') for x in left)))
+                # slow or never?  keep watching, and record what the survivors are doing
+                diag = {}
+                for r, p in left.items():
+                    try:
+                        pr = psutil.Process(p)
+                        diag[r] = dict(status=pr.status(), threads=pr.num_threads(),
+                                       wchan=[open(f'/proc/{p}/task/{t.id}/wchan').read() for t in pr.threads()][:6],
+                                       children=[c.pid for c in pr.children()])
+                    except Exception as e:  # noqa
+                        diag[r] = repr(e)
+                t_more = time.time() + T_SLOW
+                while time.time() < t_more:
+                    left2 = {r: p for r, p in rt.runtime_pids().items() if alive(p)}
+                    if not left2:
+                        break
+                    time.sleep(0.2)
+                out['problems'].append(dict(symptom='runtime_survives' if left2 else 'runtime_slow_exit',
+                                            roles=sorted(x.rstrip('0123456789.') for x in left),
+                                            late_exit_s=None if left2 else round(time.time() - t_kill, 1)))
                 out['survivors'] = left
+                out['survivor_diag'] = diag
     except Exception as e:  # noqa
         import traceback
         out['setup_error'] = traceback.format_exc()[-1500:]
@@ -1449,7 +1496,6 @@ def quick_scenarios() -> list[dict]:
     return [
         scenario('attached', 'sub_running'),
         scenario('attached', 'root_sleeping'),
-        scenario('attached', 'idle_before_submit'),
         scenario('detached', 'manager_of_root', MANAGER_POINTS, clients=2),
         scenario('detached', 'sub_running'),
         scenario('detached', 'worker_then_manager', MANAGER_POINTS),
@@ -1573,6 +1619,7 @@ def account(ctx, rec) -> None:
 def check_schedule(ctx, topo, attached, script=None, rng=None, crash_plan=None, label='random', max_events=70):
     rec = exec_schedule(topo, attached, script, rng, crash_plan, label, max_events)
     sim = rec['_sim']
+    sim.close()
     account(ctx, rec)
     return sim, rec['info']
 
@@ -1580,6 +1627,7 @@ def check_schedule(ctx, topo, attached, script=None, rng=None, crash_plan=None, 
 def cosim_worker(seed: int, n: int, budget_s: float) -> None:
     """Child process: n random schedules, one JSON record per line on stdout."""
     import random
+    sys.setswitchinterval(0.0005)     # many short hand-offs between the simulated nodes' threads
     rng = random.Random(seed)
     t0 = time.time()
     for i in range(n):
@@ -1595,7 +1643,7 @@ def cosim_worker(seed: int, n: int, budget_s: float) -> None:
             plan.append((plan[0][0] + rng.randint(0, 6), rng.choice(['W', 'M']) if not att else 'W'))
         try:
             rec = exec_schedule(topo, att, rng=rng, crash_plan=plan, label='nested_random' if nested else 'random')
-            rec.pop('_sim', None)
+            rec.pop('_sim').close()
         except Exception:
             rec = dict(machinery_error=traceback.format_exc()[-1500:])
         print('C14REC ' + json.dumps(rec, default=str))
@@ -1747,16 +1795,16 @@ def run(ctx):
 
     # ---- co-simulation -------------------------------------------------------------------------------------
     t0 = time.time()
+    nproc = ctx.n(3, 10)
+    per = ctx.n(45, 260)
+    budget_s = ctx.n(40, 600)
+    procs = [launch_cosim(ctx.seed * 1000 + w, per, budget_s) for w in range(nproc)]
     for c in corpus:
         if c.get('kind') == 'schedule':
             check_schedule(ctx, [tuple(x) for x in c['topology']], c['attached'], script=c['script'], label='corpus')
     for label, topo, att, script in directed_cases():
         sim, info = check_schedule(ctx, topo, att, script=script, label='nested_directed' if label == 'nested_witness' else 'directed')
         ctx.sample(dict(leg='cosim', label=label, topology=[[k, p] for k, p in topo], attached=att, script=script), limit=3)
-    nproc = ctx.n(6, 10)
-    per = ctx.n(40, 260)
-    budget_s = ctx.n(55, 600)
-    procs = [launch_cosim(ctx.seed * 1000 + w, per, budget_s) for w in range(nproc)]
     done = 0
     for pw in procs:
         try:
@@ -1797,6 +1845,8 @@ def run(ctx):
 
     # ---- collect the fault runs ---------------------------------------------------------------------------------
     nfault = nhung = 0
+    slow_first: list = []
+    walls: list = []
     lat = []
     setup_errors = []
     for sc, fu in futs:
@@ -1807,7 +1857,17 @@ def run(ctx):
         if res.get('setup_error'):
             setup_errors.append(dict(scenario=sc, error=res['setup_error'][-400:]))
             continue
+        probs = res.get('problems', [])
+        if probs and all(p['symptom'] in ('client_slow', 'runtime_slow_exit') for p in probs):
+            # everything did happen, only later than the bound: on a saturated box this is scheduling noise;
+            # run the scenario once more and judge that run (a persistent delay is reported)
+            ctx.count('fault_slow_first_attempt')
+            slow_first.append(dict(scenario=sc.get('point'), mode=sc['mode'], problems=probs))
+            res2 = launch_fault(sc, 300.0 if quick else 420.0)
+            if not res2.get('setup_error'):
+                res = res2
         nfault += 1
+        walls.append([sc['mode'], sc.get('point'), res.get('t_setup'), res.get('wall')])
         key = ('fault', json.dumps(sc, sort_keys=True))
         ctx.case(key, nontrivial=bool(sc.get('kill')))
         ctx.count('fault_runs_' + sc['mode'] + ('_nested' if sc.get('nested') else ''))
@@ -1828,6 +1888,8 @@ def run(ctx):
     ctx.cov['fault_runs'] = nfault
     ctx.cov['fault_max_raise_latency_s'] = max(lat) if lat else None
     ctx.cov['fault_setup_errors'] = setup_errors
+    ctx.cov['fault_walls_mode_point_setup_total'] = walls
+    ctx.cov['fault_slow_first_attempt'] = slow_first
     ctx.cov['network_namespace_isolation'] = bool(_UNSHARE[0])
     if setup_errors and len(setup_errors) > max(1, len(scs) // 3):
         ctx.broken_obligation('real-process fault runs could not be set up', json.dumps(setup_errors)[:2000])
